@@ -22,17 +22,17 @@ const modPrefix = "github.com/LiskHQ/lisk-engine/"
 
 // Program is the resolved view of /repo that every rule works on.
 type Program struct {
-	Dir      string
-	Fset     *token.FileSet
-	Pkgs     []*packages.Package // own-module packages
-	PkgByRel map[string]*packages.Package
-	Prog     *ssa.Program
-	SSAPkg   map[string]*ssa.Package // by rel path ("pkg/consensus")
-	Funcs    map[string]*ssa.Function
-	OwnFuncs []*ssa.Function // all own-module functions incl. anonymous ones, sorted
-	cg       *callgraph.Graph
-	chaCG    *callgraph.Graph
-	LoadSecs float64
+	Dir       string
+	Fset      *token.FileSet
+	Pkgs      []*packages.Package // own-module packages
+	PkgByRel  map[string]*packages.Package
+	Prog      *ssa.Program
+	SSAPkg    map[string]*ssa.Package // by rel path ("pkg/consensus")
+	Funcs     map[string]*ssa.Function
+	OwnFuncs  []*ssa.Function // all own-module functions incl. anonymous ones, sorted
+	cg        *callgraph.Graph
+	chaCG     *callgraph.Graph
+	LoadSecs  float64
 	BuildTags string
 }
 
